@@ -11,6 +11,7 @@ import (
 	"errors"
 	"fmt"
 	"os"
+	"reflect"
 	"slices"
 	"strings"
 	"time"
@@ -51,6 +52,7 @@ type HKey struct {
 type HistInput struct {
 	States     []HState  `json:"states"` // index = StateNames order; Exception last
 	Bindings   [][]HKey  `json:"bindings,omitempty"`
+	BindKinds  []string  `json:"bind_kinds,omitempty"` // per binding: "" / "map", "struct" (func fields), "prefix" (StatePrefix "S")
 	Actions    []HAction `json:"actions,omitempty"`
 	Calls      []HCall   `json:"calls"`
 	QueueLimit int       `json:"queue_limit,omitempty"`
@@ -377,18 +379,50 @@ func runHistory(in *HistInput) (obs *HistObs) {
 		return a.Ret
 	}
 	for bi, b := range in.Bindings {
+		kind := ""
+		if bi < len(in.BindKinds) {
+			kind = in.BindKinds[bi]
+		}
 		neg := map[string]am.HandlerNegotiation{}
 		fin := map[string]am.HandlerFinal{}
 		for _, k := range b {
 			k := k
 			bi := bi
+			name := hkeyName(names, k)
+			if kind == "prefix" {
+				name = strings.TrimPrefix(name, "S")
+			}
 			if hkeyFinal(k) {
-				fin[hkeyName(names, k)] = func(e *am.Event) { body(bi, k) }
+				fin[name] = func(e *am.Event) { body(bi, k) }
 			} else {
-				neg[hkeyName(names, k)] = func(e *am.Event) bool { return body(bi, k) }
+				neg[name] = func(e *am.Event) bool { return body(bi, k) }
 			}
 		}
-		if _, err := m.HandlersBindMaps(neg, fin); err != nil {
+		var err error
+		switch kind {
+		case "struct":
+			// a struct with one func field per handler (field handlers)
+			var fields []reflect.StructField
+			for _, n := range sortedKeys(neg) {
+				fields = append(fields, reflect.StructField{Name: n, Type: reflect.TypeOf(am.HandlerNegotiation(nil))})
+			}
+			for _, n := range sortedKeys(fin) {
+				fields = append(fields, reflect.StructField{Name: n, Type: reflect.TypeOf(am.HandlerFinal(nil))})
+			}
+			v := reflect.New(reflect.StructOf(fields))
+			for n, f := range neg {
+				v.Elem().FieldByName(n).Set(reflect.ValueOf(f))
+			}
+			for n, f := range fin {
+				v.Elem().FieldByName(n).Set(reflect.ValueOf(f))
+			}
+			_, err = m.HandlersBind(v.Interface())
+		case "prefix":
+			_, err = m.HandlersBindMaps(neg, fin, am.BindOpts{StatePrefix: "S"})
+		default:
+			_, err = m.HandlersBindMaps(neg, fin)
+		}
+		if err != nil {
 			obs.Err = "bind: " + err.Error()
 			return obs
 		}
